@@ -21,7 +21,7 @@ var deadlineFirst = []int{1, 0, 0, 1, 0, 6, 12}
 
 // keys that are past their deadline but still stored (EXPIRE 1 issued late in a second; about a second per case)
 func TestDeadlineSchedulesExpired(t *testing.T) {
-	kit.Check(t, kit.Spec[schedx.Case]{Sub: "sched", Quick: 60, Thorough: 1200,
+	kit.Check(t, kit.Spec[schedx.Case]{Sub: "sched", Quick: 60, Thorough: 500,
 		Gen: schedx.Gen(schedx.Profile{AWeights: deadlineFirst, Expired: 1, Deadlines: true}), Exec: schedx.Exec, TrackCase: true})
 }
 
